@@ -99,6 +99,12 @@ func c04Corpus() []string {
 		"reset U=" + k + "," + a + " P=" + k + ":09 C= F= O=0", "view " + k + ":7", "remove " + k,
 		"view2 " + a + ":7", "insert " + a + " 01", "swap", "get " + k, "commit", "get " + a, "keyops", "commit",
 		"view *", "get " + k, "get " + a,
+		// L/E/L: view L touches k, view E commits k to the block, L touches k again: L must see the
+		// block's pending change, and its re-insert of the original value must stay pending
+		"reset U=" + k + " P=" + k + ":09 C= F= O=0", "view " + k + ":7", "get " + k, "view2 " + k + ":7", "insert " + k + " 05", "commit",
+		"get " + k, "insert " + k + " 09", "get " + k, "keyops", "commit", "view *", "get " + k,
+		"reset U=" + k + " P= C=" + k + ":09 F= O=0", "view *", "insert " + k + " 09", "get " + k, "view2 *", "remove " + k, "commit",
+		"get " + k, "insert " + k + " 09", "get " + k, "opindex", "commit", "view *", "get " + k,
 		"reset U=" + k + " P=" + k + ":09 C= F= O=0", "view *", "get " + k, "view2 *", "remove " + k, "commit",
 		"get " + k, "insert " + k + " 09", "get " + k, "keyops", "opindex", "commit", "view *", "get " + k,
 	}
